@@ -19,6 +19,7 @@ type envModel struct {
 	nextDoc    int
 	open       map[*value]*openFile
 	decoded    int
+	envVars    map[string]string
 	decoders   map[*value]value // *yaml.Decoder / *json.Decoder cell -> the reader it was built on
 }
 
@@ -45,3 +46,5 @@ func (i *interpreter) patchGlobals(pkg *ssa.Package) {
 		}
 	}
 }
+
+func (e *envModel) getenv(name string) string { return e.envVars[name] }
